@@ -218,9 +218,8 @@ SPEC = {
                       _vec(3, [(0, 1)], skip_sinks=True)]},
         {'name': 'scc4', 'fn': 'scc', 'params': p4, 'call': c4,
          # thorough only: all 2^16 graphs on 4 nodes x trivial x node kind, sliced by the first row + flags
-         'bounds': {'thorough': 'not rev and not unknown_edge and not skip_sinks and (trivial or not objs)'},
-         'slices': {'thorough': [s + ' and ' + t for s in ('trivial and objs', 'trivial and not objs', 'not trivial and not objs')
-                                 for t in _flag_slices(['a0', 'a1', 'a2', 'a3'])]},
+         'bounds': {'thorough': 'not rev and not unknown_edge and not skip_sinks and trivial and not objs'},
+         'slices': {'thorough': _flag_slices(['a0', 'a1', 'a2', 'a3'])},
          'timeout': {'thorough': 1500},
          'fidelity': [_vec(4, e) for n, e in repo_graphs() if n == 4]},
         {'name': 'scc4keyed', 'fn': 'scck', 'params': _PK, 'call': _CK,
